@@ -128,7 +128,7 @@ def _run(module, cfg, name=None, workers=16, timeout=600, simulate=None, depth=N
     if not os.path.isabs(cfg):
         cfg = os.path.join(specdir, cfg)
     # (java.io.tmpdir: TLC leaves an empty tlc-<n> directory per run in the JVM's temporary directory)
-    jopts = ["-XX:+UseParallelGC", "-Xmx" + heap, "-Djava.io.tmpdir=" + meta]
+    jopts = ["-XX:+UseParallelGC", "-Xss64m", "-Xmx" + heap, "-Djava.io.tmpdir=" + meta]
     if dfs:
         jopts.append("-Dtlc2.tool.queue.IStateQueue=StateDeque")
     cmd = ["java"] + jopts + ["-cp", JAR, "tlc2.TLC", "-workers", str(workers), "-metadir", meta,
